@@ -82,6 +82,9 @@ def fam_try(prop, tier):
             out.append(_try_harness(prop, flavour, ds))
     for ds in aprofs:
         out.append(_try_async_harness(prop, ds))
+    # steps made ONLY of an operator that keeps a success "most of the time": `~?>` on Option values can still fail
+    for ds in [(3,), (3, 2), (3, 3), (1, 3), (2, 3, 3)] + ([] if tier == "quick" else [(4,), (3, 3, 3), (4, 3)]):
+        out.append(_try_harness(prop, "opt", ds, force_kind="filter"))
     return out
 
 
@@ -145,7 +148,7 @@ def _try_async_harness(prop, ds):
     return Harness(name, harness_fn(name, b, unwind=4), prog, note="profile %s, async Result; pending count <= 1 per initial gate" % (ds,))
 
 
-def _try_harness(prop, flavour, ds, mac=None):
+def _try_harness(prop, flavour, ds, mac=None, force_kind=None):
     """mac: a thread-spawning try macro (native sweeps only): branches of a step run in parallel, so traces are compared
     as multisets"""
     spawn_mac = mac
@@ -179,6 +182,11 @@ def _try_harness(prop, flavour, ds, mac=None):
     # later steps rotate over operator kinds: in a try macro a step only starts when the previous one succeeded,
     # so recovery operators (`~<=`, `~<|`, `~!>`) of a later step are never applied to a failure
     def later_kind(i, s):
+        # force_kind: EVERY later step of EVERY branch uses this one operator (e.g. `~?>` on Option values: a step made
+        # only of operators that "usually" keep a success can still fail); the last step recovers, so that a skipped
+        # failure check of a middle step changes the result
+        if force_kind:
+            return force_kind if s < ds[i] - 1 or ds[i] == 2 else "or_else"
         # odd steps can fail (and_then); even steps rotate over recovery / pass-through operators, so that a failure in a
         # non-final step is always followed by an operator that would "repair" it if the step check were skipped
         if s % 2 == 1:
@@ -193,6 +201,8 @@ def _try_harness(prop, flavour, ds, mac=None):
             return "~=> |x: u8| { ev(%s); %s }" % (c, cb_body(i, s, "x"))
         if k == "wrap_and_then":
             return "~=> >>> -> |x: u8| { ev(%s); %s } <<<" % (c, cb_body(i, s, "x"))
+        if k == "filter":
+            return "~?> |x: &u8| { ev(%s); let _ = x; !f_%d_%d }" % (c, i, s)
         if k == "or_else":
             return ("~<= || { ev(%s); Some(%du8) }" % (c, K(i, s))) if opt else ("~<= |e: u8| { ev(%s); Ok::<u8, u8>(e.wrapping_add(%d)) }" % (c, K(i, s)))
         if k == "or":
@@ -206,6 +216,8 @@ def _try_harness(prop, flavour, ds, mac=None):
     def later_ref(i, s):
         """reference for one later step of branch i, whose current value v_i is a success"""
         k = later_kind(i, s)
+        if k == "filter":
+            return "ev(code(K_CALL, %d, %d, 0)); let r%d: %s = if f_%d_%d { None } else { Some(v%d) };" % (i, s, i, ty, i, s, i)
         if k in ("and_then", "then", "wrap_and_then"):
             return "ev(code(K_CALL, %d, %d, 0)); let r%d: %s = %s;" % (i, s, i, ty, cb_body(i, s, "v%d" % i))
         if k == "or":
@@ -294,9 +306,9 @@ def _try_harness(prop, flavour, ds, mac=None):
                 b += "    assert!(%d >= tlen() || fail_step < 0 || (step_of(tr(%d)) as i32) <= fail_step, \"C06: event of a step after the failing one\");\n" % (k, k)
     # ---- covers (vacuity guards)
     b += "    kani_cover!(r.is_%s());\n" % ("some" if opt else "ok")
-    if any(later_kind(i, s) in ("and_then", "then", "wrap_and_then") for i in range(n) for s in range(1, ds[i])):
+    if any(later_kind(i, s) in ("and_then", "then", "wrap_and_then", "filter") for i in range(n) for s in range(1, ds[i])):
         b += "    kani_cover!(fail_step >= 1);\n"
-    name = "%s_try_%s_%s%s" % (prop.lower(), flavour, pname(ds), ("_" + spawn_mac) if spawn_mac else "")
+    name = "%s_try_%s_%s%s%s" % (prop.lower(), flavour, pname(ds), ("_" + spawn_mac) if spawn_mac else "", ("_all_" + force_kind) if force_kind else "")
     return Harness(name, harness_fn(name, b, unwind=((3 + max(ds)) if is_async else None)), prog,
                    note="profile %s, %s" % (ds, flavour))
 
